@@ -251,6 +251,12 @@ class Parameter(Accessible):
         """return a clone of ourselfs with inherited properties"""
         res = type(self)(**kwds)
         res.name = self.name
+        properties = dict(properties)
+        datatype = properties.pop('datatype', None)
+        if datatype is not None:
+            # copy first: datatype properties among the inherited properties
+            # must not be applied to the datatype object of the base class
+            res.datatype = datatype.copy()
         res.init(properties)
         res.init(res.ownProperties)
         if 'datatype' in self.propertyValues:
